@@ -275,7 +275,7 @@ def _fork_case(kind, order, actions):
         if _norm(buf) != want[0]:
             bad.append(("listener-dead", "a client connecting after the burst got %r" % buf[:80]))
         if kind == "fork":
-            deadline = time.time() + 5
+            deadline = time.time() + 20
             while time.time() < deadline:
                 server.service_actions()
                 if not server.active_children:
@@ -374,7 +374,7 @@ def _tls_burst(kind):
                     bad.append(("wrong-answer", "TLS client next to a broken TLS client got %r" % got[:80]))
             s.close()
         if kind == "fork":
-            deadline = time.time() + 5
+            deadline = time.time() + 20
             while time.time() < deadline:
                 server.service_actions()
                 if not server.active_children:
@@ -438,7 +438,7 @@ def _stalled(kind, nstalled=40, tls=False):
         time.sleep(0.3)
         if tls:
             # every stuck client is dropped after the configured second
-            deadline = time.time() + 6
+            deadline = time.time() + 15
             still = list(silent)
             while still and time.time() < deadline:
                 nxt = []
@@ -453,10 +453,10 @@ def _stalled(kind, nstalled=40, tls=False):
                         pass
                 still = nxt
             if still:
-                bad.append(("never-dropped", "timeout = 1: %d of %d stuck clients (silent / half a line / unfinished headers) are still connected after 6 s" % (len(still), nstalled)))
+                bad.append(("never-dropped", "timeout = 1: %d of %d stuck clients (silent / half a line / unfinished headers) are still connected after 15 s" % (len(still), nstalled)))
         for label, data, want in (("gopher", b"/d/small.txt\r\n", b"small\n"), ("http", b"GET /d/small.txt HTTP/1.0\r\n\r\n", b"small\n"), ("spartan", b"gopher.test /d/small.txt 0\r\n", b"small\n")):
-            s = socket.create_connection(server.server_address, timeout=5)
-            s.settimeout(5)
+            s = socket.create_connection(server.server_address, timeout=12)
+            s.settimeout(12)
             buf = b""
             try:
                 s.sendall(data)
@@ -466,7 +466,7 @@ def _stalled(kind, nstalled=40, tls=False):
                         break
                     buf += ch
             except OSError as e:
-                bad.append(("starved", "with %d silent clients connected a %s client got no answer within 5 s (%s); received %r" % (nstalled, label, e, buf[:60])))
+                bad.append(("starved", "with %d silent clients connected a %s client got no answer within 12 s (%s); received %r" % (nstalled, label, e, buf[:60])))
                 s.close()
                 break
             s.close()
@@ -483,7 +483,7 @@ def _stalled(kind, nstalled=40, tls=False):
             bad.append(("worker-escaped", "a forked worker came back out of process_request() into the accept loop instead of ending"))
             os.unlink(marker)
         if kind == "fork":
-            deadline = time.time() + 5
+            deadline = time.time() + 20
             while time.time() < deadline and server.active_children:
                 server.service_actions()
                 time.sleep(0.02)
